@@ -1054,7 +1054,8 @@ fn do_xargs(args: &[&str]) -> Result<CommandResult, XargsError> {
             options.exit_if_pass_char_limit,
             max_args,
             max_lines,
-            options.no_run_if_empty,
+            // With -I there is nothing to substitute when the input is empty.
+            options.no_run_if_empty || replace.is_some(),
         ),
     )?;
     Ok(result)
